@@ -25,7 +25,7 @@ CLAIMED = {
             'deterministic simulation: seeded edit histories of several live definitions incl. rejected calls vs ordered-table model'),
     'C14': ('dsim-defs', 'World D: derive-then-edit histories; non-interference ledger over all live definitions; Context<->Definition conversions',
             'deterministic simulation: derive-then-edit histories vs ordered-table model, aliasing audit of all live objects after every event'),
-    'C17': ('dsim-xproc', 'World X: the same plans executed in several fresh interpreters with different PYTHONHASHSEED (ASLR on and off); transcripts must be byte-identical',
+    'C17': ('dsim-xproc', 'World X: the same plans executed in several fresh interpreters with different PYTHONHASHSEED (ASLR on and off, heap layout perturbed); transcripts must be byte-identical; one listed known finding (known_findings.json, S5) is matched outcome by outcome',
             'deterministic simulation: identical seeded histories replayed across interpreter processes/hash seeds, transcript differential'),
 }
 
